@@ -156,6 +156,10 @@ def main():
             got = getattr(m, d["name"], _MISSING) if m is not None else _MISSING
             if got is _MISSING:
                 problem("generated-class-not-exported", "%s is not an attribute of %s" % (d["name"], where))
+            elif got is not C and not str(getattr(got, "__module__", "eolib")).startswith("eolib"):
+                # the name resolves to something from outside the library: a helper the generated modules import for
+                # their own use (collections.abc.Iterable, typing.Optional ...) travelled along a star-import
+                problem("generated-class-shadowed-by-imported-helper:" + d["name"], "%s.%s is %r (module %s), not the class defined in %s" % (where, d["name"], got, getattr(got, "__module__", "?"), d["module"]))
             elif got is not C:
                 problem("generated-class-resolves-to-other-object", "%s.%s is %r, not the class defined in %s" % (where, d["name"], got, d["module"]))
     print(json.dumps({"problems": problems, "counts": counts}))
